@@ -1,13 +1,24 @@
 #!/bin/sh
 # Regenerate the Lean text derived from the Rust sources of the crate (current working tree).
 #   regen.sh [SRC_DIR [OUT_DIR]]        defaults: /repo/src  /verif/lean/SLV/Gen
-# Writes OUT_DIR/Bi.lean and OUT_DIR/Mul.lean.  Exit status:
-#   0  both files were (re)generated            -> then build:  cd /verif/lean && lake build SLV.Gen.BiTie SLV.Gen.MulTie
-#   2  the translator met Rust syntax outside its subset (message `rs2lean: <file>: fn <name>: unsupported ..`
-#      on stderr); NOTHING is written in that case, so the caller must treat the tie as broken and must not
-#      fall back on the stale generated files.
+# Writes OUT_DIR/Bi.lean and OUT_DIR/Mul.lean; then build:  cd /verif/lean && lake build SLV.Gen.BiTie SLV.Gen.MulTie
+# Exit status:
+#   0  both files (re)generated, every function translated.
+#   3  both files written, WITH HOLES: for every function F that could not be translated (Rust syntax outside the
+#      translator's subset, or F calls a generated function that is itself a hole, or a convention guard on an
+#      accessor of F's source file failed -- then every function of that source file is a hole) the file contains
+#      the comment `-- UNTRANSLATABLE <file> fn <F>: <reason>` and NO definition of F, so exactly the tie theorem
+#      gen_<F>_eq (and the ties whose proofs rewrite with it) fails in `lake build` with an unknown identifier;
+#      all other functions are generated and tied as usual.  The generated text is also elaborated once with
+#      `lake env lean` (--validate; verdict cached per text in ${TMPDIR:-/tmp}/rs2lean_validated.json, ~1 s for Bi.lean and
+#      ~10 s for Mul.lean when the text is new): a definition that Lean rejects (ill-typed translator output) becomes
+#      a hole as well, so the generated MODULES always compile.  One line per hole on stderr:
+#         rs2lean: UNTRANSLATABLE <file> fn <F>: <reason>
+#   2  at least one output file could not be written at all (a source file is missing / unreadable, or the item
+#      scanner lost track of the file structure): `rs2lean: FATAL <Out.lean>: ..` on stderr; that file is left
+#      untouched (STALE: treat the whole tie of that file as broken); the other file is still written.
 set -eu
 SRC=${1:-/repo/src}
 OUT=${2:-/verif/lean/SLV/Gen}
 HERE=$(cd "$(dirname "$0")" && pwd)
-exec python3 "$HERE/rs2lean.py" --src "$SRC" --out "$OUT"
+exec python3 "$HERE/rs2lean.py" --src "$SRC" --out "$OUT" --validate
